@@ -77,8 +77,19 @@ fn synth_map(rng: &mut Rng, bad: bool) -> Vec<(usize, usize)> {
     m
 }
 
+/// the hypotheses of `Props/C05.translate_total` / `translate_mono_virtual` (`WFMap`, `MonoMapV`)
+fn wf_mono_v(m: &[(usize, usize)]) -> bool {
+    !m.is_empty() && m[0].0 == 0
+        && m.windows(2).all(|w| w[0].0 < w[1].0 && (w[0].1 + (w[1].0 - w[0].0) <= w[1].1 || w[0].1 == w[1].1))
+}
+
 fn emit_srcpos(out: &mut Out, rng: &mut Rng, md: &MarkdownIt, content: &str, mapping: &[(usize, usize)], tag: &str) {
     let ms = map_str(mapping);
+    if tag.starts_with("srcpos:table-from") {
+        // tables made by the real `get_lines` must satisfy the hypotheses the theorems assume
+        if wf_mono_v(mapping) { out.stats.count("srcpos:real-table-satisfies-WFMap+MonoMapV"); }
+        else { out.stats.count("srcpos:REAL-TABLE-VIOLATES-WFMap/MonoMapV"); }
+    }
     let mut env = ErasedSet::new();
     let state = InlineState::new(content.to_owned(), mapping.to_vec(), md, &mut env, Node::default());
     let has_virtual = mapping.windows(2).any(|w| w[0].1 == w[1].1);
